@@ -100,6 +100,11 @@ def observe(lens):
     obs['primary'] = [bool(w.is_primary) for w in lens.wavelengths.wavelengths]
     obs['aperture'] = None if lens.aperture is None else \
         [lens.aperture.ap_type, float(lens.aperture.value)]
+    obs['fields'] = [[float(fl.x), float(fl.y), float(fl.vx), float(fl.vy)]
+                     for fl in lens.fields.fields]
+    obs['field_type'] = lens.field_type
+    obs['npickups'] = len(lens.pickups)
+    obs['nsolves'] = len(lens.solves)
     return obs
 
 
@@ -199,7 +204,15 @@ class World:
         self.stats['steps'] += 1
         self.last_applied = kind
         self.shape.append(kind if kind != 'var' else 'var:' + op['type'])
-        self.check_state(op)
+        try:
+            self.check_state(op)
+        except Violation as v:
+            if v.owner == self.prop or self.prop not in ('C19',):
+                raise
+            # a C19 run does not judge the model comparison (C01's oracle):
+            # it is noted and the history goes on, so that what the durable
+            # form makes of the situation is still seen
+            self.probe('foreign:' + v.signature)
         return True
 
     # ---- build ops
@@ -959,6 +972,63 @@ class World:
                         m.surfs[k]['conic'] = float(sg.conic[k])
         m._touch_scale()
 
+
+    # ---- injected faults: calls the library documents as rejected.  A
+    #      rejected call must leave no trace (the model does not change).
+    def op_bad_call(self, op):
+        kind = op['kind']
+        lens = self.lens
+        m = self.model
+        self.target = None
+        if kind in ('pickup_attr', 'solve_type', 'var_type', 'set_index_range',
+                    'asphere_on_sphere'):
+            self.need_lens(4)
+
+        if 'surface' in op:
+            op = dict(op, surface={k: v for k, v in op['surface'].items()
+                                   if k != 'share'})
+
+        def attempt():
+            if kind == 'surface_type':
+                sut.apply_build(lens, dict(op['surface'], index=m.n,
+                                           stype='no_such_surface_type'),
+                                self.matcache)
+            elif kind == 'glass_name':
+                sut.apply_build(lens, dict(
+                    op['surface'], index=m.n,
+                    material=['glass_str', 'NoSuchGlassXQZ17']), self.matcache)
+            elif kind == 'index_beyond_end':
+                sut.apply_build(lens, dict(op['surface'], index=m.n + 2),
+                                self.matcache)
+            elif kind == 'pickup_attr':
+                lens.pickups.add(m.idx(op.get('src', 1), 1, m.n - 2),
+                                 'diameter',
+                                 m.idx(op.get('dst', 2), 1, m.n - 2),
+                                 op.get('scale', 1.0), op.get('offset', 0.0))
+            elif kind == 'solve_type':
+                lens.solves.add('chief_ray_angle',
+                                m.idx(op.get('k', 2), 2, m.n - 1), 0.5)
+            elif kind == 'var_type':
+                from optiland.optimization.variable import Variable
+                Variable(lens, 'curvature', surface_number=1)
+            elif kind == 'wavelength_unit':
+                lens.add_wavelength(0.55, unit='furlong')
+            elif kind == 'aperture_type':
+                lens.set_aperture('pupil', 3.0)
+            else:
+                raise ValueError(kind)
+        try:
+            with quiet(), warnings.catch_warnings():
+                warnings.simplefilter('ignore')
+                attempt()
+        except Exception:
+            self.fault('rejected_call:' + kind)
+            return
+        # the call was accepted: then it is simply not the fault we meant to
+        # inject; the state comparison that follows decides nothing for it
+        self.probe('bad_call_accepted:' + kind)
+        raise Abort('injected call was not rejected')
+
     # ---- structure edits with no documented placement semantics
     def op_insert(self, op):
         self.need_lens()
@@ -1109,6 +1179,16 @@ class World:
                     feq(a[0], b[0]) and feq(a[1], b[1]))):
                 bad(clause('sap', k), 'surface_aperture',
                     f'aperture of surface {k} is {a}, expected {b}')
+        if obs['fields'] != [[float(v) for v in fl] for fl in m.fields] or \
+                obs['field_type'] != m.field_type:
+            bad(clause('fields', None), 'fields',
+                f'fields {obs["field_type"]} {obs["fields"]}, expected '
+                f'{m.field_type} {m.fields}')
+        if obs['npickups'] != len(m.pickups) or \
+                obs['nsolves'] != len(m.solves):
+            bad('frame', 'managers',
+                f'{obs["npickups"]} pickups / {obs["nsolves"]} solves '
+                f'registered, expected {len(m.pickups)} / {len(m.solves)}')
         if exp['aperture'] is not None and (
                 obs['aperture'] is None or
                 obs['aperture'][0] != exp['aperture'][0] or
@@ -1123,7 +1203,7 @@ class World:
 # --------------------------------------------------------------------------
 EDIT_KINDS = ['set_radius', 'set_conic', 'set_thickness', 'set_index',
               'set_asphere_coeff', 'var', 'pickup', 'solve', 'update',
-              'image_solve', 'add_wavelength', 'read']
+              'image_solve', 'add_wavelength', 'read', 'bad_call']
 VAR_TYPES = ['radius', 'conic', 'thickness', 'index', 'asphere_coeff',
              'tilt', 'decenter', 'polynomial_coeff', 'chebyshev_coeff']
 
@@ -1156,7 +1236,8 @@ def value_for(ch, kind, cur, nasty):
         return r(ch.uniform(1.0, 2.2), 5)
     if kind == 'asphere':
         if wild:
-            return ch.pick([0, 0.0, 1e-3, -1e-12, 1], tag='pal')
+            return ch.pick([0, 0.0, 1e-3, -1e-12, 1, 3.1e-13, -8.5e-16,
+                            2e-15], tag='pal')
         return r(ch.uniform(-1, 1) * 10.0 ** (-ch.randint(4, 9)), 4)
     if kind == 'tilt':
         if wild:
@@ -1293,6 +1374,12 @@ def gen_edit(ch, w, sw):
                                      'marginal_ray', 'chief_ray'], 0.25,
                                     at_least=1)
         return op
+    if kind == 'bad_call':
+        return {'op': 'bad_call', 'kind': ch.pick(
+            ['pickup_attr', 'solve_type', 'var_type', 'aperture_type',
+             'wavelength_unit'], tag='badkind'),
+            'src': ch.randint(1, 6), 'dst': ch.randint(1, 6),
+            'k': ch.randint(2, 8)}
     if kind == 'optimize':
         from engines import optsim
         vs = []
@@ -1398,6 +1485,20 @@ def run_one(prop, run_seed, run_index, cfg):
                                   ('features', 'kinds', 'nasty', 'length')},
             'prop': prop}
     viol = None
+    if prop in ('C01', 'C19') and ch.chance(0.25):
+        # rejected calls injected between the build operations
+        out = []
+        for op in build:
+            if op['op'] == 'add_surface' and op['index'] >= 1 and \
+                    ch.chance(0.3):
+                out.append({'op': 'bad_call', 'kind': ch.pick(
+                    ['surface_type', 'glass_name', 'index_beyond_end'],
+                    tag='badbuild'), 'surface': dict(
+                        op, thickness=ch.rounded(ch.uniform(0.5, 60), 4))})
+            if op['op'] == 'add_wavelength' and ch.chance(0.2):
+                out.append({'op': 'bad_call', 'kind': 'wavelength_unit'})
+            out.append(op)
+        build = out
     try:
         for op in build:
             ops.append(op)
